@@ -1136,6 +1136,29 @@ Definition erdf_rxn_text (mapping : bool) (r : wrxn) (meta : list (str * str)) :
       rdf_meta_text meta).
 
 (* ------------------------------------------------------------------------------------------------ *)
+(** * Writer sessions: IO.__init__ (open mode) and _RDFWrite.__init__ (is the "$RDFILE 1 / $DATM" header written?) *)
+
+(* one session = one writer object from construction to close: target kind, append flag, the texts of the records it writes
+   (each as RDFWrite.write / SDFWrite.write emits it).  A path is opened 'a' if append else 'w' (truncating); a buffer
+   (StringIO / opened file object) is written at its current position, which is its end in a history of sessions. *)
+Record session := mk_session { ss_buffer : bool; ss_append : bool; ss_records : list str }.
+
+(* _RDFWrite.__init__: `if not append or not (self._is_buffer or self._file.tell() != 0): self.write = self.__write`
+   (the header is then written lazily by the first write) *)
+Definition rdf_writes_header (is_buffer append tell_nonzero : bool) : bool := negb append || negb (is_buffer || tell_nonzero).
+Definition rdf_header_text (stamp : str) : str := L "$RDFILE 1" ++ [nl] ++ L "$DATM    " ++ stamp ++ [nl].
+
+Definition session_start (file : str) (s : session) : str := if ss_buffer s then file else if ss_append s then file else [].
+Definition rdf_session (stamp : str) (file : str) (s : session) : str :=
+  let start := session_start file s in
+  let header := rdf_writes_header (ss_buffer s) (ss_append s) (nonempty start) in
+  start ++ (match ss_records s with [] => [] | _ => if header then rdf_header_text stamp else [] end) ++ concat (ss_records s).
+Definition rdf_sessions (stamp : str) (ss : list session) : str := fold_left (rdf_session stamp) ss [].
+(* SDFWrite / ESDFWrite: no header, only the open mode matters *)
+Definition sdf_session (file : str) (s : session) : str := session_start file s ++ concat (ss_records s).
+Definition sdf_sessions (ss : list session) : str := fold_left sdf_session ss [].
+
+(* ------------------------------------------------------------------------------------------------ *)
 (** * Boolean equalities (used by the correspondence cases) *)
 
 Definition zzz_eqb (a b : Z * Z * Z) : bool :=
